@@ -59,8 +59,8 @@ Definition post_out (ovr : option (list N)) (out : list N) : list N :=
    ovr is the per-call prompt of the crc32 workaround (None otherwise) *)
 Definition exec_model (cmd : list N) (ovr : option (list N)) (sts : list stage) (c : chan)
   : xres * chan * list stage :=
-  (* a first slice with a forbidden byte is refused before anything reaches the console *)
-  if any_in (blacklist c) (firstn SEND_SLICE (cmd ++ [CR])) then (XErr EIllegal, c, sts) else
+  (* a line with a forbidden byte is refused before anything reaches the console *)
+  if any_in (blacklist c) (cmd ++ [CR]) then (XErr EIllegal, c, sts) else
   let c1 := load (hd_stage sts) c in
   let sts1 := tl sts in
   match sendline cmd true None c1 with
